@@ -4255,7 +4255,7 @@ impl BytecodeVM {
                     ctor_obj.borrow_mut().prototype = Some(super_ctor.cheap_clone());
 
                     // Store __super__ on constructor for super() calls
-                    ctor_obj.borrow_mut().set_property(
+                    ctor_obj.borrow_mut().set_internal_slot(
                         PropertyKey::String(interp.intern("__super__")),
                         JsValue::Object(super_ctor.cheap_clone()),
                     );
@@ -4265,8 +4265,8 @@ impl BytecodeVM {
                         .borrow()
                         .get_property(&PropertyKey::String(interp.intern("prototype")))
                     {
-                        ctor_obj.borrow_mut().set_property(
-                            PropertyKey::String(interp.intern("__super_target__")),
+                        ctor_obj.borrow_mut().set_internal_slot(
+                        PropertyKey::String(interp.intern("__super_target__")),
                             sp,
                         );
                     }
@@ -4321,21 +4321,21 @@ impl BytecodeVM {
                     if let Some(super_val) = class_obj.borrow().get_property(&super_key) {
                         method_obj
                             .borrow_mut()
-                            .set_property(super_key.clone(), super_val.clone());
+                            .set_internal_slot(super_key.clone(), super_val.clone());
 
                         // For static methods, __super_target__ = parent constructor (__super__)
                         // For instance methods, __super_target__ = parent prototype (from class)
                         if is_static {
-                            method_obj.borrow_mut().set_property(
-                                PropertyKey::String(interp.intern("__super_target__")),
+                            method_obj.borrow_mut().set_internal_slot(
+                        PropertyKey::String(interp.intern("__super_target__")),
                                 super_val,
                             );
                         } else if let Some(super_target) = class_obj
                             .borrow()
                             .get_property(&PropertyKey::String(interp.intern("__super_target__")))
                         {
-                            method_obj.borrow_mut().set_property(
-                                PropertyKey::String(interp.intern("__super_target__")),
+                            method_obj.borrow_mut().set_internal_slot(
+                        PropertyKey::String(interp.intern("__super_target__")),
                                 super_target,
                             );
                         }
@@ -4460,21 +4460,21 @@ impl BytecodeVM {
                     if let Some(super_val) = class_obj.borrow().get_property(&super_key) {
                         method_obj
                             .borrow_mut()
-                            .set_property(super_key.clone(), super_val.clone());
+                            .set_internal_slot(super_key.clone(), super_val.clone());
 
                         // For static methods, __super_target__ = parent constructor (__super__)
                         // For instance methods, __super_target__ = parent prototype (from class)
                         if is_static {
-                            method_obj.borrow_mut().set_property(
-                                PropertyKey::String(interp.intern("__super_target__")),
+                            method_obj.borrow_mut().set_internal_slot(
+                        PropertyKey::String(interp.intern("__super_target__")),
                                 super_val,
                             );
                         } else if let Some(super_target) = class_obj
                             .borrow()
                             .get_property(&PropertyKey::String(interp.intern("__super_target__")))
                         {
-                            method_obj.borrow_mut().set_property(
-                                PropertyKey::String(interp.intern("__super_target__")),
+                            method_obj.borrow_mut().set_internal_slot(
+                        PropertyKey::String(interp.intern("__super_target__")),
                                 super_target,
                             );
                         }
